@@ -13,7 +13,7 @@ EXTRACT = ["FDS", "C04R"]
 BINS = ["c04r"]
 NEEDS_CICADA = True
 ALLOWED_AXIOMS = []
-PINNED = ["C04_full", "C04_refuted", "C04_sinks", "C04_unopenable", "Known_C04_child", "C04_parse", "C04_parse_from", "C04_shell_unaffected"]
+PINNED = ["C04_full", "C04_refuted", "C04_sinks", "C04_builtin_sinks", "C04_unopenable", "Known_C04_child", "C04_parse", "C04_parse_from", "C04_parse_from_attached", "C04_shell_unaffected"]
 TRUSTED = R.TRUSTED
 ASSUMES = R.ASSUMES + ["file contents: create/truncate/append are observed on the real binary (L2), the model records the open mode only"]
 WEIGHTS = {"builtin": 0.15, "notfound": 0.03, "here": 0.12, "from": 0.15, "redir": 0.9, "maxredir": 4, "capture": 0.1,
@@ -60,22 +60,18 @@ def builtin_sinks(ctx, res):
         res.nontrivial("c04b:%s:%s" % (",".join(rs), which))
         msink = mo["sinks"][0].split(".")[0] if mo["sinks"] else "none"
         psink = mo["posix"][0]["sinks"][1 if which == "out" else 2].split(".")[0]
-        msink3 = mo3["sinks"][0].split(".")[0] if mo3["sinks"] else "none"
-        if where == {msink3} and msink3 == psink and msink != psink:
-            res.extra.setdefault("accepted", []).append("builtin text follows the POSIX fold (proposed C04-fix-3 behaviour): " + line)
-        elif where != {msink}:
+        if where != {psink}:
+            # the property's oracle first: the text must land where the POSIX fold of the list says
+            bad += 1
+            if bad <= 2:
+                res.violate(kind="oracle", layer="L2", input=line, expected="text on " + psink, observed=sorted(where),
+                            model=msink, failing_input=True,
+                            note="the output of a builtin that is alone on its line does not follow its redirections left to right")
+        elif msink != psink:
             bad += 1
             if bad <= 2:
                 res.violate(kind="correspondence", layer="L2", input=line, model=msink, observed=sorted(where), failing_input=False,
-                            note="the text of the builtin lands elsewhere than the model of _get_std_fds predicts")
-        elif msink != psink:
-            if "builtin-redirect" in known:
-                res.known("builtin-redirect", "class=builtin-redirect what=%s observed=`%s`: text on %s, POSIX says %s" % (
-                    known["builtin-redirect"].get("what", "")[:120], line, msink, psink))
-            else:
-                bad += 1
-                res.violate(kind="oracle", layer="L2", input=line, expected=psink, observed=msink, failing_input=True,
-                            note="builtin output does not follow its redirections")
+                            note="the model of _get_std_fds disagrees with the implementation (which meets the oracle)")
 
 
 def run(ctx, res):
